@@ -297,12 +297,17 @@ def no_output_on_refusal(ctx, ev):
             node=main.node, function=fq, expected="sign … then save_envelope", found="a write precedes signing on some path")
     # recursive_sign(): the whole tree is constructed (all dependency checks) before the first signature
     rs = repo.func(CMD, "recursive_sign")
-    body = [s for s in rs.node.body if not (isinstance(s, ast.Expr) and isinstance(s.value, ast.Constant))]
-    src = ast.unparse(rs.node)
-    ctor = src.find("RecursiveSigner(")
-    call = src.find(".recursive_sign()")
-    R.check("C09-D2 no output on refusal", 0 <= ctor < call, "the signer tree is built before signing starts", mod=rs.module, node=rs.node,
-            function=ctx.fq(rs), expected="RecursiveSigner(...) constructed, then .recursive_sign()", found="order not recognised")
+    routs = [o for o in Evaluator(repo, inline_depth=0).outcomes(rs) if o.kind == "return"]
+    built_first = bool(routs)
+    for o in routs:
+        for seq in flatten_effects(o.effects):
+            calls = [e.args[0] for e in seq if isinstance(e, App) and e.op == "eff:call" and isinstance(e.args[0], App)]
+            news = [i for i, c in enumerate(calls) if c.op == "new" and isinstance(c.args[0], Ref) and c.args[0].obj.name == "RecursiveSigner"]
+            signs = [(i, c) for i, c in enumerate(calls) if c.op == "call" and isinstance(c.args[0], Ref) and c.args[0].obj.name == "recursive_sign"]
+            if not news or not signs or min(i for i, _ in signs) < max(news) or not all(c.args[1] == calls[news[-1]] for _, c in signs):
+                built_first = False
+    R.check("C09-D2 no output on refusal", built_first, "the signer tree is built before signing starts", mod=rs.module, node=rs.node,
+            function=ctx.fq(rs), expected="RecursiveSigner(...) constructed, then .recursive_sign() on that object", found="order not recognised")
     ld = repo.func(CMD, "RecursiveSigner._load_dependency")
     louts = ev.outcomes(ld)
     lr = [o for o in louts if o.kind == "raise"]
